@@ -85,6 +85,8 @@ def check_case(ctx, case):
         with warnings.catch_warnings():
             warnings.simplefilter("ignore")
             dec = jaxtyped(typechecker=tc)(target)
+            # the spelling without a typechecker (only a context is opened around the call): used by the toggle-during-call operation
+            dec_none = jaxtyped(typechecker=None)(target)
         if case["ntc"] == "above":
             dec = typing.no_type_check(dec)
         always_off = case["ntc"] != "none"
@@ -133,8 +135,24 @@ def check_case(ctx, case):
                 rec.exc = None
                 newval = not model_disabled
                 rec.hook = lambda: jaxtyping.config.update("jaxtyping_disable", newval)
+                variant = op[2] if len(op) > 2 else 0  # 0: new style at top level; 1: typechecker=None; 2/3: the same inside a context block
+                import numpy as _np
+                from jaxtyping import Shaped as _Shaped
+
                 try:
-                    st_, val = drive(kind, dec, list(args), dict(kwargs))
+                    if variant >= 2:
+                        with jaxtyped("context"):
+                            assert isinstance(_np.zeros(3), _Shaped[_np.ndarray, "vf19c"])
+                            st_, val = drive(kind, dec_none if variant == 3 else dec, list(args), dict(kwargs))
+                            # the enclosing block's binding is still in force after the call
+                            if isinstance(_np.zeros(4), _Shaped[_np.ndarray, "vf19c"]):
+                                raise Violation("toggle-during-call", case, f"a call whose body flipped the switch to {newval} took the enclosing context block's bindings away (variant {variant}); {info} ops={case['ops']}")
+                    else:
+                        st_, val = drive(kind, dec_none if variant == 1 else dec, list(args), dict(kwargs))
+                except Violation:
+                    raise
+                except BaseException as e:  # noqa: BLE001
+                    raise Violation("toggle-during-call", case, f"well-typed call whose body sets jaxtyping_disable={newval} (variant {variant}): leaving the enclosing context block raised {type(e).__name__}: {e}; {info} ops={case['ops']}")
                 finally:
                     rec.hook = None
                 ncalls += 1
@@ -143,12 +161,10 @@ def check_case(ctx, case):
                 model_disabled = newval if rec.calls else model_disabled
                 if not (st_ == "ok" and val is rec.result and len(rec.calls) == 1):
                     raise Violation("toggle-during-call", case, f"well-typed call whose body sets jaxtyping_disable={newval}: {st_} {val!r}, body ran {len(rec.calls)}x; {info} ops={case['ops']}")
-                import numpy as _np
-                from jaxtyping import Shaped as _Shaped
-
                 if not (isinstance(_np.zeros(3), _Shaped[_np.ndarray, "vf19"]) and isinstance(_np.zeros(4), _Shaped[_np.ndarray, "vf19"])):
                     raise Violation("toggle-during-call", case, f"after a call whose body flipped the switch, top-level checks are no longer stateless; {info} ops={case['ops']}")
                 flags.add("toggle-during-call")
+                flags.add(f"toggle-variant-{variant}")
                 continue
             # call
             _, typed, style_seed, bad_at, raising = op[:5]
@@ -255,7 +271,7 @@ def c19_case(draw):
             v = draw(valid)
             ops.append(["set-key", v[0], v[1], draw(st.sampled_from(["JAXTYPING_DISABLE", "Jaxtyping_Disable", "jaxtyping_DISABLE"]))])
         elif k == "call-toggle":
-            ops.append(["call-toggle", draw(st.integers(0, 15))])
+            ops.append(["call-toggle", draw(st.integers(0, 15)), draw(st.sampled_from([1, 0, 3, 2]))])
         elif k == "invalid":
             if draw(st.integers(0, 3)) == 0:
                 ops.append(["invalid", draw(st.sampled_from(["jaxtyping_disabled", "disable", "", "jaxtyping"])), True])
